@@ -13,9 +13,9 @@ fi
 python3 tools/gate.py || { echo "BUILD-GATE: forbidden construct found" >&2; exit 2; }
 # 1b. regenerate the translated layer from /repo's CURRENT source (fail closed: on a translation
 #     error the generated file is removed, so that exactly the theorems that depend on it stop building)
-for tr in scalars effects planes; do
+for tr in scalars effects planes tables; do
   if [ -f harness/translate/$tr.py ]; then
-    python3 harness/translate/$tr.py > build/translate_$tr.log 2>&1 || { cat build/translate_$tr.log >&2; case $tr in scalars) rm -f coq/theories/Gen/Scalars.v;; effects) rm -f coq/theories/Gen/Effects.v;; planes) rm -f coq/theories/Gen/Planes.v;; esac; }
+    python3 harness/translate/$tr.py > build/translate_$tr.log 2>&1 || { cat build/translate_$tr.log >&2; case $tr in scalars) rm -f coq/theories/Gen/Scalars.v;; effects) rm -f coq/theories/Gen/Effects.v;; planes) rm -f coq/theories/Gen/Planes.v;; tables) rm -f coq/theories/Gen/Tables.v;; esac; }
   fi
 done
 cd coq
